@@ -265,7 +265,7 @@ struct StreamSim : Sim {
                         bias = K_GCM;
                 p.cfg["clients"] = nc;
                 bool huge_run = (focus == "C09" && (thorough ? run_index % 20000 < 3 : run_index < 3)) ||
-                                (focus == "C05" && (thorough ? run_index % 20000 < 5 : run_index < 1));
+                                (focus == "C05" && (thorough ? run_index % 20000 < 10 : run_index < 2));
                 for (int i = 0; i < nc; i++) {
                         int kind = (bias >= 0 && (i == 0 || g.chance(3, 4))) ? bias : (int) g.below(K_N);
                         if (focus == "C05" && bias >= 0 && i > 0 && g.chance(1, 2))
@@ -312,8 +312,8 @@ struct StreamSim : Sim {
                                 p.cfg["c0_w"] = 1 + (int64_t) g.below(48);
                                 p.cfg["c0_twin"] = 0;
                         } else {
-                                p.cfg["c0_kind"] = g.chance(1, 2) ? K_MH1 : K_MH256;
-                                p.cfg["c0_fam"] = thorough ? (int64_t) (run_index % 5) : 1 + (int64_t) g.below(4);
+                                p.cfg["c0_kind"] = (run_index & 1) ? K_MH256 : K_MH1; // both kinds in every batch
+                                p.cfg["c0_fam"] = thorough ? (int64_t) ((run_index / 2) % 5) : 1 + (int64_t) g.below(4);
                         }
                         p.cfg["c0_huge"] = 1;
                         p.cfg["c0_phase"] = (int64_t) g.below(4096);
